@@ -1,8 +1,236 @@
 package gvc
 
-func cmdReplay(args []string) int { return 2 }
+import (
+	"bytes"
+	"context"
+	"encoding/json"
+	"fmt"
+	"os"
+	"os/exec"
+	"path/filepath"
+	"strings"
+	"time"
+)
+
+// runOverlayTest injects a test file into package directory pkgRel of the repository with go test -overlay
+// (nothing is written under the repository) and runs test function name. It reports whether the test FAILED
+// (= the counterexample reproduces on the real code) and the output.
+func runOverlayTest(pkgRel, testName, src string) (failed bool, out string, err error) {
+	tmp, err := os.MkdirTemp("", "gvc-replay-")
+	if err != nil {
+		return false, "", err
+	}
+	defer os.RemoveAll(tmp)
+	testFile := filepath.Join(tmp, "zz_gvc_replay_test.go")
+	if err := os.WriteFile(testFile, []byte(src), 0o644); err != nil {
+		return false, "", err
+	}
+	target := filepath.Join(RepoDir, filepath.FromSlash(pkgRel), "zz_gvc_replay_test.go")
+	ov, _ := json.Marshal(map[string]any{"Replace": map[string]string{target: testFile}})
+	ovFile := filepath.Join(tmp, "overlay.json")
+	os.WriteFile(ovFile, ov, 0o644)
+	ctx, cancel := context.WithTimeout(context.Background(), 180*time.Second)
+	defer cancel()
+	pkgArg := "./" + filepath.ToSlash(pkgRel)
+	if pkgRel == "" || pkgRel == "." {
+		pkgArg = "."
+	}
+	cmd := exec.CommandContext(ctx, "go", "test", "-overlay", ovFile, "-vet=off", "-count=1", "-timeout", "60s", "-run", "^"+testName+"$", pkgArg)
+	cmd.Dir = RepoDir
+	cmd.Env = append(os.Environ(), "GOFLAGS=-mod=mod", "GOPROXY=off", "GOSUMDB=off", "GOTOOLCHAIN=local", "GOCACHE="+goCache())
+	var buf bytes.Buffer
+	cmd.Stdout, cmd.Stderr = &buf, &buf
+	runErr := cmd.Run()
+	out = buf.String()
+	if len(out) > 6000 {
+		out = out[:6000] + "\n...[truncated]"
+	}
+	if runErr == nil {
+		return false, out, nil
+	}
+	if strings.Contains(out, "GVC-REPLAY-REPRODUCED") {
+		return true, out, nil
+	}
+	return false, out, fmt.Errorf("replay did not run to a verdict: %v", runErr)
+}
+
+func goCache() string {
+	if c := os.Getenv("GOCACHE"); c != "" {
+		return c
+	}
+	out, err := exec.Command("go", "env", "GOCACHE").Output()
+	if err == nil {
+		return strings.TrimSpace(string(out))
+	}
+	return filepath.Join(os.TempDir(), "gvc-gocache")
+}
+
+// pkgRelOf: repository-relative directory of the package of a canonical function name.
+func (w *World) pkgRelOf(fn string) (rel, pkgName string, ok bool) {
+	f := w.P.Funcs[fn]
+	if f == nil {
+		return "", "", false
+	}
+	path := FuncPkgPath(f)
+	if !w.P.InRepo(path) {
+		return "", "", false
+	}
+	rel = strings.TrimPrefix(strings.TrimPrefix(path, w.P.ModPath), "/")
+	pk := w.P.PkgByPath[path]
+	if pk == nil {
+		return "", "", false
+	}
+	return rel, pk.Types.Name(), true
+}
 
 // tryReplay attempts to reproduce a failed obligation on the real code; it records the outcome in rep.
 func tryReplay(r *PropResult, o *Obligation, rep map[string]any) {
-	rep["replay"] = "no replay template for this obligation kind; the failed obligation and the solver output above are the evidence"
+	tmpl := replayFor(r, o)
+	if tmpl == nil {
+		rep["replay"] = "no replay template for this obligation; the failed obligation and the solver output above are the evidence"
+		return
+	}
+	rep["replay_package"] = tmpl.pkgRel
+	rep["replay_test"] = tmpl.testName
+	rep["replay_source"] = tmpl.src
+	failed, out, err := runOverlayTest(tmpl.pkgRel, tmpl.testName, tmpl.src)
+	rep["replay_output"] = out
+	switch {
+	case err != nil:
+		rep["replay"] = "replay could not be run: " + err.Error()
+	case failed:
+		rep["replay"] = "REPRODUCED on the real code: " + tmpl.what
+		o.Detail["replayed"] = "true"
+	default:
+		rep["replay"] = "candidate input did not reproduce on the real code"
+	}
+}
+
+type replayTemplate struct {
+	pkgRel, testName, src, what string
+}
+
+func replayFor(r *PropResult, o *Obligation) *replayTemplate {
+	if o.Clause != nil && strings.HasPrefix(o.Clause.Detail, "field:") {
+		return replayFieldCopied(r, o)
+	}
+	if fn, ok := replayRegistry[o.Kind]; ok {
+		return fn(r, o)
+	}
+	return nil
+}
+
+var replayRegistry = map[string]func(*PropResult, *Obligation) *replayTemplate{}
+
+// replayFieldCopied: set the field to a non-zero value by reflection, call the copy function, compare.
+func replayFieldCopied(r *PropResult, o *Obligation) *replayTemplate {
+	field := strings.TrimPrefix(o.Clause.Detail, "field:")
+	rel, pkgName, ok := r.W.pkgRelOf(o.Func)
+	if !ok {
+		return nil
+	}
+	fn := r.W.P.Funcs[o.Func]
+	if fn == nil || len(fn.Params) == 0 {
+		return nil
+	}
+	recvT := deref(fn.Params[0].Type())
+	tn := shortTypeName(typeStr(recvT))
+	method := fn.Name()
+	src := fmt.Sprintf(`package %s
+
+import (
+	"reflect"
+	"testing"
+)
+
+func gvcNonZero(v reflect.Value) bool {
+	switch v.Kind() {
+	case reflect.Bool:
+		v.SetBool(true)
+	case reflect.String:
+		v.SetString("gvc")
+	case reflect.Int, reflect.Int8, reflect.Int16, reflect.Int32, reflect.Int64:
+		v.SetInt(7)
+	case reflect.Uint, reflect.Uint8, reflect.Uint16, reflect.Uint32, reflect.Uint64:
+		v.SetUint(7)
+	case reflect.Slice:
+		s := reflect.MakeSlice(v.Type(), 1, 1)
+		gvcNonZero(s.Index(0))
+		v.Set(s)
+	case reflect.Ptr:
+		p := reflect.New(v.Type().Elem())
+		v.Set(p)
+	case reflect.Struct:
+		for i := 0; i < v.NumField(); i++ {
+			if v.Field(i).CanSet() {
+				gvcNonZero(v.Field(i))
+			}
+		}
+	default:
+		return false
+	}
+	return true
+}
+
+func TestGvcReplay(t *testing.T) {
+	orig := &%s{}
+	f := reflect.ValueOf(orig).Elem().FieldByName(%q)
+	if !f.IsValid() || !f.CanSet() || !gvcNonZero(f) {
+		t.Skip("field cannot be set by reflection")
+	}
+	cp := orig.%s()
+	got := reflect.ValueOf(cp).Elem().FieldByName(%q).Interface()
+	if !reflect.DeepEqual(got, f.Interface()) {
+		t.Fatalf("GVC-REPLAY-REPRODUCED: %s.%s() lost field %s: got %%#v, want %%#v", got, f.Interface())
+	}
+}
+`, pkgName, tn, field, method, field, tn, method, field)
+	return &replayTemplate{pkgRel: rel, testName: "TestGvcReplay", src: src,
+		what: fmt.Sprintf("(&%s{%s: <non-zero>}).%s() returns a copy whose %s differs", tn, field, method, field)}
+}
+
+func shortTypeName(s string) string {
+	if i := strings.LastIndex(s, "."); i >= 0 {
+		return s[i+1:]
+	}
+	return s
+}
+
+// cmdReplay re-runs the replay recorded in a replay file: exit 1 if it reproduces on the current tree.
+func cmdReplay(args []string) int {
+	if len(args) != 1 {
+		fmt.Fprintln(os.Stderr, "usage: gvc replay <replay-file.json>")
+		return 2
+	}
+	b, err := os.ReadFile(args[0])
+	if err != nil {
+		fmt.Fprintln(os.Stderr, err)
+		return 2
+	}
+	var rep map[string]any
+	if err := json.Unmarshal(b, &rep); err != nil {
+		fmt.Fprintln(os.Stderr, err)
+		return 2
+	}
+	fmt.Printf("obligation: %v\nclause: %v\nstatus: %v\n", rep["obligation"], rep["clause"], rep["status"])
+	src, _ := rep["replay_source"].(string)
+	if src == "" {
+		fmt.Println("this replay file carries no executable replay (no-failing-input-found); solver output:")
+		fmt.Println(rep["solver_output"])
+		return 0
+	}
+	pkgRel, _ := rep["replay_package"].(string)
+	name, _ := rep["replay_test"].(string)
+	failed, out, err := runOverlayTest(pkgRel, name, src)
+	fmt.Println(out)
+	if err != nil {
+		fmt.Println("replay error:", err)
+		return 2
+	}
+	if failed {
+		fmt.Printf("VIOLATION property=%v replay=%s\n", rep["property"], args[0])
+		return 1
+	}
+	fmt.Println("replay passes on the current tree")
+	return 0
 }
